@@ -258,26 +258,9 @@ func c20R1(a *A, calls []*ssa.Call, marshalers map[string]*ssa.Function) {
 	}
 	// each Marshaler returns exactly its own json.Marshal result
 	for tn, m := range marshalers {
-		ok := true
-		n := 0
-		for _, ret := range returnsOf(m) {
-			n++
-			if len(ret.Results) != 2 {
-				ok = false
-				continue
-			}
-			e0, ok0 := ret.Results[0].(*ssa.Extract)
-			e1, ok1 := ret.Results[1].(*ssa.Extract)
-			if !ok0 || !ok1 || e0.Tuple != e1.Tuple || e0.Index != 0 || e1.Index != 1 {
-				ok = false
-				continue
-			}
-			c, isC := e0.Tuple.(*ssa.Call)
-			if !isC || !staticCalleeIs(c.Common(), "encoding/json.Marshal") {
-				ok = false
-			}
-		}
-		a.check(ok && n > 0, rule, "marshaler@"+tn, w.pos(m.Pos()), "returns exactly the result of its own json.Marshal call", "the Marshaler can return an error of its own (or drop/alter the marshalled bytes): serialising a delivered transaction can fail")
+		var sites []marshalSite
+		ok := exactMarshalResult(m, nil, 0, &sites)
+		a.check(ok, rule, "marshaler@"+tn, w.pos(m.Pos()), "returns exactly the result of its own json.Marshal call", "the Marshaler can return an error of its own (or drop/alter the marshalled bytes): serialising a delivered transaction can fail")
 	}
 }
 
@@ -290,13 +273,27 @@ func derefNamed(t types.Type) (*types.Named, bool) {
 }
 
 // srcDesc renders where a marshalled field's value comes from, relative to the receiver.
-func srcDesc(v ssa.Value, recv ssa.Value, depth int) string {
-	if depth > 8 {
+func srcDesc(v ssa.Value, recv ssa.Value, depth int) string { return srcDescE(v, recv, nil, depth) }
+
+// penv binds the parameters of a helper to the argument values at its call site (in the caller's environment).
+type penv struct {
+	vals   map[*ssa.Parameter]ssa.Value
+	parent *penv
+}
+
+func srcDescE(v ssa.Value, recv ssa.Value, env *penv, depth int) string {
+	if depth > 12 {
 		return "..."
 	}
 	v = strip(v)
 	switch x := v.(type) {
 	case *ssa.Parameter:
+		if env != nil {
+			if av, ok := env.vals[x]; ok {
+				return srcDescE(av, recv, env.parent, depth+1)
+			}
+			return "param:" + x.Name()
+		}
 		if x == recv {
 			return "recv"
 		}
@@ -304,20 +301,20 @@ func srcDesc(v ssa.Value, recv ssa.Value, depth int) string {
 	case *ssa.UnOp:
 		if x.Op == token.MUL {
 			if fv := forwardLoad(x); fv != nil {
-				return srcDesc(fv, recv, depth+1)
+				return srcDescE(fv, recv, env, depth+1)
 			}
-			return srcDesc(x.X, recv, depth+1)
+			return srcDescE(x.X, recv, env, depth+1)
 		}
 	case *ssa.FieldAddr:
-		return srcDesc(x.X, recv, depth+1) + "." + fieldName(x)
+		return srcDescE(x.X, recv, env, depth+1) + "." + fieldName(x)
 	case *ssa.Field:
-		return srcDesc(x.X, recv, depth+1) + "." + fieldNameV(x)
+		return srcDescE(x.X, recv, env, depth+1) + "." + fieldNameV(x)
 	case *ssa.Call:
 		c := x.Common()
 		if f := c.StaticCallee(); f != nil {
 			var as []string
 			for _, arg := range c.Args {
-				as = append(as, srcDesc(arg, recv, depth+1))
+				as = append(as, srcDescE(arg, recv, env, depth+1))
 			}
 			return f.Name() + "(" + strings.Join(as, ",") + ")"
 		}
@@ -327,11 +324,11 @@ func srcDesc(v ssa.Value, recv ssa.Value, depth int) string {
 		}
 		return x.Value.String()
 	case *ssa.Convert:
-		return "conv(" + srcDesc(x.X, recv, depth+1) + ")"
+		return "conv(" + srcDescE(x.X, recv, env, depth+1) + ")"
 	case *ssa.Phi:
 		var as []string
 		for _, e := range x.Edges {
-			as = append(as, srcDesc(e, recv, depth+1))
+			as = append(as, srcDescE(e, recv, env, depth+1))
 		}
 		sort.Strings(as)
 		return "phi{" + strings.Join(as, "|") + "}"
@@ -343,11 +340,24 @@ func srcDesc(v ssa.Value, recv ssa.Value, depth int) string {
 
 // structSources flattens the per-field sources of a struct value along Go field paths.
 func structSources(v ssa.Value, recv ssa.Value, prefix []string, out map[string]string, depth int) {
-	fs := fieldsOfValue(v, 0)
+	structSourcesE(v, recv, nil, prefix, out, depth)
+}
+
+func structSourcesE(v ssa.Value, recv ssa.Value, env *penv, prefix []string, out map[string]string, depth int) {
+	if p, ok := strip(v).(*ssa.Parameter); ok && env != nil {
+		if av, bound := env.vals[p]; bound {
+			structSourcesE(av, recv, env.parent, prefix, out, depth)
+			return
+		}
+	}
 	st := structOf(v.Type())
-	if st == nil || depth > 4 {
+	if st == nil || depth > 6 {
 		return
 	}
+	structFields(fieldsOfValue(v, 0), st, recv, env, prefix, out, depth)
+}
+
+func structFields(fs map[string]fsrc, st *types.Struct, recv ssa.Value, env *penv, prefix []string, out map[string]string, depth int) {
 	for i := 0; i < st.NumFields(); i++ {
 		f := st.Field(i)
 		src, ok := fs[f.Name()]
@@ -355,19 +365,74 @@ func structSources(v ssa.Value, recv ssa.Value, prefix []string, out map[string]
 		if !ok {
 			continue
 		}
-		if _, isStruct := f.Type().Underlying().(*types.Struct); isStruct && src.Val != nil && f.Embedded() {
-			structSources(src.Val, recv, path, out, depth+1)
+		sub, isStruct := f.Type().Underlying().(*types.Struct)
+		if isStruct && f.Embedded() && src.Sub != nil {
+			structFields(fieldsAt(src.Sub.Addr, src.Sub.B, src.Sub.Idx, depth+1), sub, recv, env, path, out, depth+1)
+			continue
+		}
+		if isStruct && src.Val != nil && f.Embedded() {
+			structSourcesE(src.Val, recv, env, path, out, depth+1)
 			continue
 		}
 		switch {
 		case src.Val != nil:
-			out[strings.Join(path, ".")] = srcDesc(src.Val, recv, 0)
+			out[strings.Join(path, ".")] = srcDescE(src.Val, recv, env, 0)
 		case src.Of != nil:
-			out[strings.Join(path, ".")] = srcDesc(src.Of, recv, 0) + "." + src.Name
+			out[strings.Join(path, ".")] = srcDescE(src.Of, recv, env, 0) + "." + src.Name
 		default:
 			out[strings.Join(path, ".")] = src.String()
 		}
 	}
+}
+
+// marshalSite is one json.Marshal call reached from a Marshaler, directly or through in-package helper functions that the
+// Marshaler returns the result of; Env binds the helper's parameters.
+type marshalSite struct {
+	Call *ssa.Call
+	Env  *penv
+}
+
+// exactMarshalResult: every return of f yields exactly (bytes, error) of one json.Marshal call or of an in-package helper
+// for which the same holds; the sites are collected.
+func exactMarshalResult(f *ssa.Function, env *penv, depth int, sites *[]marshalSite) bool {
+	ok := true
+	n := 0
+	for _, ret := range returnsOf(f) {
+		n++
+		if len(ret.Results) != 2 {
+			return false
+		}
+		e0, ok0 := ret.Results[0].(*ssa.Extract)
+		e1, ok1 := ret.Results[1].(*ssa.Extract)
+		if !ok0 || !ok1 || e0.Tuple != e1.Tuple || e0.Index != 0 || e1.Index != 1 {
+			ok = false
+			continue
+		}
+		c, isC := e0.Tuple.(*ssa.Call)
+		if !isC {
+			ok = false
+			continue
+		}
+		if staticCalleeIs(c.Common(), "encoding/json.Marshal") {
+			*sites = append(*sites, marshalSite{c, env})
+			continue
+		}
+		cal := c.Common().StaticCallee()
+		if cal == nil || cal.Blocks == nil || cal.Pkg != f.Pkg || cal == f || depth >= 2 || c.Common().IsInvoke() {
+			ok = false
+			continue
+		}
+		sub := &penv{vals: map[*ssa.Parameter]ssa.Value{}, parent: env}
+		for i, a := range c.Common().Args {
+			if i < len(cal.Params) {
+				sub.vals[cal.Params[i]] = a
+			}
+		}
+		if !exactMarshalResult(cal, sub, depth+1, sites) {
+			ok = false
+		}
+	}
+	return ok && n > 0
 }
 
 func c20R2(a *A, marshalers map[string]*ssa.Function) {
@@ -382,19 +447,17 @@ func c20R2(a *A, marshalers map[string]*ssa.Function) {
 		"ColumnData": {{"filed": "recv.Filed", "type": "String(recv.Type)", "isEmpty": "recv.IsEmpty", "data": "*"}},
 	}
 	for tn, m := range marshalers {
-		var mcs []*ssa.Call
-		instrs(m, func(in ssa.Instruction) {
-			if c, ok := in.(*ssa.Call); ok && staticCalleeIs(c.Common(), "encoding/json.Marshal") {
-				mcs = append(mcs, c)
-			}
-		})
-		sort.Slice(mcs, func(i, j int) bool { return mcs[i].Pos() < mcs[j].Pos() })
-		if len(mcs) != len(want[tn]) {
-			a.undecided(rule, "json-field@"+tn, w.pos(m.Pos()), "%d json.Marshal calls, expected %d", len(mcs), len(want[tn]))
+		var sites []marshalSite
+		exactMarshalResult(m, nil, 0, &sites)
+		sort.Slice(sites, func(i, j int) bool { return sites[i].Call.Pos() < sites[j].Call.Pos() })
+		if len(sites) < len(want[tn]) {
+			a.undecided(rule, "json-field@"+tn, w.pos(m.Pos()), "%d json.Marshal calls, expected %d", len(sites), len(want[tn]))
 			continue
 		}
 		recv := ssa.Value(m.Params[0])
-		for bi, c := range mcs {
+		matched := map[int]int{}
+		for _, site := range sites {
+			c := site.Call
 			mi, ok := c.Common().Args[0].(*ssa.MakeInterface)
 			if !ok {
 				continue
@@ -405,11 +468,25 @@ func c20R2(a *A, marshalers map[string]*ssa.Function) {
 				continue
 			}
 			srcs := map[string]string{}
-			structSources(mi.X, recv, nil, srcs, 0)
+			structSourcesE(mi.X, recv, site.Env, nil, srcs, 0)
 			jfs := map[string]jsonField{}
 			for _, jf := range jsonFields(st) {
 				jfs[jf.Name] = jf
 			}
+			// which documented form is this: the one sharing the most field names with the marshalled struct
+			bi, best := 0, -1
+			for i, wf := range want[tn] {
+				k := 0
+				for n := range wf {
+					if _, ok := jfs[n]; ok {
+						k++
+					}
+				}
+				if k > best {
+					bi, best = i, k
+				}
+			}
+			matched[bi]++
 			var names []string
 			for n := range want[tn][bi] {
 				names = append(names, n)
@@ -432,6 +509,11 @@ func c20R2(a *A, marshalers map[string]*ssa.Function) {
 				}
 				got := srcs[strings.Join(jf.Path, ".")]
 				a.check(ws == "*" || got == ws, rule, key, w.posOf(c), n+" <- "+got, fmt.Sprintf("JSON field %q carries %s instead of %s", n, got, ws))
+			}
+		}
+		for i := range want[tn] {
+			if matched[i] == 0 {
+				a.viol(rule, fmt.Sprintf("json-field@%s[form#%d]", tn, i+1), w.pos(m.Pos()), "no json.Marshal call of %s.MarshalJSON produces the documented form #%d %v", tn, i+1, want[tn][i])
 			}
 		}
 	}
@@ -460,25 +542,15 @@ func c20R3(a *A) {
 	w := a.W
 	initFn := w.Root.Func("init")
 	tables := map[string]map[int64]string{}
-	instrs(initFn, func(in ssa.Instruction) {
-		mu, ok := in.(*ssa.MapUpdate)
-		if !ok {
-			return
+	for _, gn := range []string{"columnTypeStrings", "statementStrings"} {
+		g := w.Root.Var(gn)
+		if g == nil {
+			continue
 		}
-		for _, gn := range []string{"columnTypeStrings", "statementStrings"} {
-			g := w.Root.Var(gn)
-			if g != nil && mapIsGlobal(mu.Map, g) {
-				k, ok1 := constInt(mu.Key)
-				v, ok2 := constString(mu.Value)
-				if ok1 && ok2 {
-					if tables[gn] == nil {
-						tables[gn] = map[int64]string{}
-					}
-					tables[gn][k] = v
-				}
-			}
+		if t := intStringTable(initFn, g, 0); len(t) > 0 {
+			tables[gn] = t
 		}
-	})
+	}
 	// column types: every replication.Type* has a columnType* constant of equal value with a name
 	sc := w.Root.Pkg.Scope()
 	colConst := map[int64]string{}
@@ -559,15 +631,12 @@ func c20R4(a *A, m *ssa.Function) {
 	if m == nil {
 		return
 	}
-	var mc *ssa.Call
-	instrs(m, func(in ssa.Instruction) {
-		if c, ok := in.(*ssa.Call); ok && staticCalleeIs(c.Common(), "encoding/json.Marshal") {
-			mc = c
-		}
-	})
-	if !a.need(mc != nil, rule, "json.Marshal call in ColumnData.MarshalJSON") {
+	var sites []marshalSite
+	exactMarshalResult(m, nil, 0, &sites)
+	if !a.need(len(sites) == 1 && sites[0].Env == nil, rule, "json.Marshal call in ColumnData.MarshalJSON") {
 		return
 	}
+	mc := sites[0].Call
 	mi, ok := mc.Common().Args[0].(*ssa.MakeInterface)
 	if !a.need(ok, rule, "marshalled struct") {
 		return
@@ -632,4 +701,120 @@ func c20R4(a *A, m *ssa.Function) {
 		}
 	}
 	a.check(good, rule, "null-vs-empty@ColumnData", w.posOf(mc), "data = null iff c.Data == nil, else string(c.Data)", why+": SQL NULL and the empty string (or absent columns) become indistinguishable in the JSON")
+}
+
+
+// intStringTable evaluates the package-level map g (integer kind -> name) from the package initialiser: constant map updates
+// of a literal, or the result of an in-package function that inverts another literal table (name -> kind) by ranging over it.
+func intStringTable(initFn *ssa.Function, g *ssa.Global, depth int) map[int64]string {
+	out := map[int64]string{}
+	instrs(initFn, func(in ssa.Instruction) {
+		if mu, ok := in.(*ssa.MapUpdate); ok && mapIsGlobal(mu.Map, g) {
+			k, ok1 := constInt(mu.Key)
+			v, ok2 := constString(mu.Value)
+			if ok1 && ok2 {
+				out[k] = v
+			}
+		}
+	})
+	if len(out) > 0 || depth > 0 {
+		return out
+	}
+	// g = invert(other)
+	instrs(initFn, func(in ssa.Instruction) {
+		st, ok := in.(*ssa.Store)
+		if !ok || st.Addr != ssa.Value(g) {
+			return
+		}
+		c, ok := st.Val.(*ssa.Call)
+		if !ok {
+			return
+		}
+		cal := c.Common().StaticCallee()
+		if cal == nil || cal.Blocks == nil || cal.Pkg != initFn.Pkg || len(c.Common().Args) != 1 || len(cal.Params) != 1 {
+			return
+		}
+		src, ok := c.Common().Args[0].(*ssa.UnOp)
+		if !ok {
+			return
+		}
+		sg, ok := src.X.(*ssa.Global)
+		if !ok || !isMapInverter(cal) {
+			return
+		}
+		// the source table: constant name -> kind; it must not be written elsewhere before (init order is source order
+		// for dependent initialisers, and the compiler orders g after the table it depends on)
+		inv := map[int64]string{}
+		dup := false
+		instrs(initFn, func(in2 ssa.Instruction) {
+			if mu, ok := in2.(*ssa.MapUpdate); ok && mapIsGlobal(mu.Map, sg) {
+				k, ok1 := constString(mu.Key)
+				v, ok2 := constInt(mu.Value)
+				if ok1 && ok2 {
+					if _, seen := inv[v]; seen {
+						dup = true // not one-to-one: which name survives depends on map iteration order
+					}
+					inv[v] = k
+				}
+			}
+		})
+		if !dup {
+			out = inv
+		}
+	})
+	return out
+}
+
+// isMapInverter: f(m) returns a new map n with n[v] = k for every (k, v) of m and nothing else.
+func isMapInverter(f *ssa.Function) bool {
+	var mk *ssa.MakeMap
+	var rng *ssa.Range
+	nUpd, good := 0, true
+	instrs(f, func(in ssa.Instruction) {
+		switch x := in.(type) {
+		case *ssa.MakeMap:
+			if mk != nil {
+				good = false
+			}
+			mk = x
+		case *ssa.Range:
+			if rng != nil || x.X != ssa.Value(f.Params[0]) {
+				good = false
+			}
+			rng = x
+		}
+	})
+	if mk == nil || rng == nil || !good {
+		return false
+	}
+	instrs(f, func(in ssa.Instruction) {
+		mu, ok := in.(*ssa.MapUpdate)
+		if !ok {
+			return
+		}
+		nUpd++
+		k, ok1 := mu.Key.(*ssa.Extract)
+		v, ok2 := mu.Value.(*ssa.Extract)
+		if mu.Map != ssa.Value(mk) || !ok1 || !ok2 || k.Index != 2 || v.Index != 1 || k.Tuple != v.Tuple {
+			good = false
+			return
+		}
+		nx, ok := k.Tuple.(*ssa.Next)
+		if !ok || nx.Iter != ssa.Value(rng) {
+			good = false
+			return
+		}
+		// unconditional inside the loop: the update's block is entered whenever the iteration yields an element
+		for _, ce := range dominatingConds(mu.Block()) {
+			if e, isE := ce.Cond.(*ssa.Extract); !(isE && e.Tuple == ssa.Value(nx) && e.Index == 0) {
+				good = false
+			}
+		}
+	})
+	for _, r := range returnsOf(f) {
+		if len(r.Results) != 1 || r.Results[0] != ssa.Value(mk) {
+			good = false
+		}
+	}
+	return good && nUpd == 1
 }
